@@ -246,6 +246,8 @@ def random_tree(rnd, size):
             n.tail = rtext(rnd)
         if rnd.random() < 0.3 and n.nsmap:
             n.prefix = rnd.choice(list(n.nsmap))
+        elif rnd.random() < 0.1:
+            n.prefix = rtext(rnd) or "undeclared"       # nothing says a node's prefix must be declared in its own map
         for _ in range(rnd.choice([0, 0, 1, 2, 3])):
             n.add_attribute(rtext(rnd), rtext(rnd))
         for _ in range(rnd.choice([0, 0, 1, 2])):
